@@ -114,6 +114,14 @@ CHECKS.update({
                 technique="TLA+ model of inconsistencies and repair checked by TLC; all (base, corruption sequence) pairs replayed with raw corruption + CheckIntegrity"),
 })
 
+CHECKS.update({
+    "C17": dict(cat="model_checking", ref="DESIGN.md 5/C17", note="Trusted base: TLC; the content-as-function-of-version driver and logical file comparison of the harness; bbolt. Uses the verif hook points restore.closed / restore.renamed / restore.opened as scheduler gates.",
+                text="DbLife.tla models the sequential life cycle (snapshot marks the copy, restore, snapshot id, timeline id bookkeeping) with action properties checked by TLC "
+                     "and every bounded behaviour replayed with whole-file comparison; the reload-lock protocol is model checked over all interleavings and bound to the code by a "
+                     "gated schedule that starts transactions exactly during the file swap, plus a stress of concurrent transactions against repeated restores.",
+                technique="TLA+ model (sequential machine + lock protocol) checked by TLC; behaviours replayed on DbImpl; hook-gated schedule and stress for the concurrent clause"),
+})
+
 NOT_YET = {
     "C01": "check under construction in this session (Query.tla); not claimed until it runs clean on the unchanged tree",
     "C02": "check under construction (Query.tla / ScanAlgo.tla)",
